@@ -23,7 +23,7 @@ CHECKS = {
               dict(name="writer", target="h_netbuf", args=["--sub", "writer"], tiers=["quick"], quick=["--ops", "5", "--dev", "2", "--alpha", "small"], share=0.6),
               dict(name="writer-full", target="h_netbuf", args=["--sub", "writer"], tiers=["thorough"], thorough=["--ops", "5", "--dev", "2", "--alpha", "full"], share=0.5),
               dict(name="writer-deep", target="h_netbuf", args=["--sub", "writer"], tiers=["thorough"], thorough=["--ops", "7", "--dev", "3", "--alpha", "small"], share=0.9)],
-        deadline=dict(quick=150, thorough=1200),
+        deadline=dict(quick=300, thorough=1800),
         bounds=dict(quick="<=5 operations (wait/consume/cancel/timer-cancel/run resp. write/reserve+consume/run), <=2 kernel deviations; reader with 8-byte and 4096-byte initial buffer; see harness header for alphabets",
                     thorough="reader <=7/6 operations, <=3 deviations; writer: full alphabet with <=5 operations/<=2 deviations and reduced alphabet with <=7 operations/<=3 deviations"),
         assumptions=["fake kernel replaces poll/recv/send/...; the scaled reader differs from the real one only in the initial buffer length (shim)",
